@@ -245,3 +245,43 @@ def conditions_on_edge(f, p, s):
     if ec:
         out.append(ec)
     return out
+
+
+def switch_edge_conds(f, p, s):
+    """what a switch terminator in p says on the edge p->s: [(value, "eq", k)] when s is the target of exactly one case (and not the
+    default), [(value, "ne", k) for every case] when s is the default target and no case's target"""
+    t = f.term(p)
+    if t is None or t.op != "switch" or t.get("cases") is None:
+        return []
+    cases = [(int(cv), dst) for cv, dst in t.get("cases")]
+    dflt = t.get("default")
+    v = tuple(t.ops[0])
+    hit = [k for k, dst in cases if dst == s]
+    if s == dflt:
+        return [] if hit else [(v, "ne", k) for k, _d in cases]
+    if len(hit) == 1 and f.blocks[p].succs.count(s) == 1:
+        return [(v, "eq", hit[0])]
+    return []
+
+
+def switch_conds_at(f, b):
+    """switch facts known on entry to block b (same dominating-edge criterion as conditions_at)"""
+    out = []
+    cur = b
+    seen = set()
+    while cur != -1 and cur not in seen:
+        seen.add(cur)
+        d = f.blocks[cur].idom
+        if d == -1:
+            break
+        for s in set(f.blocks[d].succs):
+            if f.dominates_block(s, b):
+                others = [p for p in f.blocks[s].preds if p != d and not f.dominates_block(s, p)]
+                if not others:
+                    out += switch_edge_conds(f, d, s)
+        cur = d
+    return out
+
+
+def switch_conds_on_edge(f, p, s):
+    return switch_conds_at(f, p) + switch_edge_conds(f, p, s)
